@@ -183,7 +183,7 @@ Definition create (s : state) (i : nat) : state :=
   | DEff ERender body _ =>
       (* RenderEffect::new: dirty = false, no notification; the first run happens synchronously:
          owner.with(|| subscriber.with_observer(|| fun(None))), then the task is spawned *)
-      let s := updn i (fun n => set_edone (set_ereg (set_eflag (set_edirty (set_efirst n false) false) false) false) false) s in
+      let s := updn i (fun n => set_epoll (set_edone (set_ereg (set_eflag (set_edirty (set_efirst n false) false) false) false) false) true) s in
       (* (clear_sources is a no-op here: a new effect has no sources; written so that the first
          run and the re-runs share one path) *)
       let s := begin_run true i (clear_sources i s) in
